@@ -388,7 +388,9 @@ Selected == {MonCfg.clauses[i] : i \in DOMAIN MonCfg.clauses} \cap Clauses
 \* what the site of a C16 violation is: the (type before, transformation) pair
 Detail(c, a, ev) ==
   IF c = "C16_LazyBuild" THEN <<a.ty, ev.k>>
-  ELSE IF c = "C08_ReduceOpThreads" THEN <<"reduce-operator-on-caller", a.cthr \in Get(a.tids, 98, {}) \cup {ev.t}>>
+  ELSE IF c = "C08_ReduceOpThreads"
+       THEN <<"reduce-operator-on-caller",
+              a.cthr \in (Get(a.tids, 98, {}) \cup Get(a.tids, KeyStage, {}) \cup {ev.t})>>
   ELSE IF c \in {"C15_NoPanic", "C15_SameAsSequential", "C15_NoAbort"}
        THEN <<a.p.src, a.p.term.k, FinalParams(a.p).ck,
               IF FinalParams(a.p).csv >= BigVal THEN "huge-chunk" ELSE "chunk-ok">>
